@@ -247,9 +247,15 @@ def offeredProtocols (r : Req) : List Str :=
   | some (c :: cs) => (splitOn 44 (c :: cs)).map strip
   | _ => []
 
-/-- the first permessage-deflate offer, when compression is enabled -/
+/-- `_create_compressors("server", params)` accepts the offer -/
+def offerValid (e : Str × List (Str × Str)) : Bool :=
+  e.1 = pmd && compressorsOk (ofString "server") (ofString "client") e.2
+
+/-- the permessage-deflate offer that is answered, when compression is enabled: the first one whose parameters
+`_create_compressors` accepts.  An offer with an unknown parameter or an invalid/unsupported value is declined
+(the `except ValueError: continue` of the fixed `_accept_connection`, RFC 7692 section 5) and the next one is tried. -/
 def deflateOffer (cfg : SCfg) (r : Req) : Option (List (Str × Str)) :=
-  if cfg.compression then ((parseExtensions r.extensions).find? (fun e => e.1 = pmd)).map (·.2) else none
+  if cfg.compression then ((parseExtensions r.extensions).find? offerValid).map (·.2) else none
 
 /-- the origin check in `WebSocketHandler.get`: `none` = check_origin raised (500), `some false` = 403 -/
 def originVerdict (bracketOk : Str → Bool) (cfg : SCfg) (r : Req) : Option Bool :=
@@ -265,16 +271,9 @@ def acceptConnection (sha1 : Bytes → Bytes) (select : List Str → Option Str)
   if !(truthy r.host && truthy r.key && truthy r.version) then .refused 400
   else if truthy (select (offeredProtocols r)) && !(offeredProtocols r).contains ((select (offeredProtocols r)).getD [])
   then .refused 500      -- the `assert`
-  else
-    match deflateOffer cfg r with
-    | some params =>
-      if compressorsOk (ofString "server") (ofString "client") params
-      then .accepted (acceptValue sha1 (r.key.getD []))
-             (if truthy (select (offeredProtocols r)) then select (offeredProtocols r) else none)
-             (some (encodeHeader pmd params))
-      else .refused 500
-    | none => .accepted (acceptValue sha1 (r.key.getD []))
-             (if truthy (select (offeredProtocols r)) then select (offeredProtocols r) else none) none
+  else .accepted (acceptValue sha1 (r.key.getD []))
+         (if truthy (select (offeredProtocols r)) then select (offeredProtocols r) else none)
+         ((deflateOffer cfg r).map (encodeHeader pmd))
 
 /-- `WebSocketHandler.get` -/
 def serverHandshake (sha1 : Bytes → Bytes) (bracketOk : Str → Bool) (select : List Str → Option Str)
